@@ -26,12 +26,12 @@ class P(drive_C10.P):
             'LineList), initial values unset / empty string / one / many, config/defaults supported or not (552), '
             'with and without default lines; a real TorConfig is bootstrapped over a real TorControlProtocol and every '
             'option is read; then 1-14 operations: CONF_CHANGED events with 1-4 lines carrying zero, one or many values '
-            'per option, reads with names in random case, socks_endpoint(), local assignments / in-place edits and '
+            'per option (a keyword-only line = reset to the default, for every declared type incl. booleans, integers and floats), reads with names in random case, socks_endpoint(), local assignments / in-place edits and '
             'saves (accepted or rejected); after every event and save every option is read again. 70% of the cases '
             'are steered clear of the open finding classes; port lists unset / auto / one / many lines, with defaults from config/defaults or __<X>. '
             'non-trivial = bootstrap succeeded and at least one event; distinct = distinct case')
     trusted = drive_C10.P.trusted + ["CONF_CHANGED / GETCONF / config/defaults wire formats as printed by harness/cfgworld.py"]
-    assumptions = ['numeric and boolean options always carry exactly one value in Tor (also inside events)',
+    assumptions = ['numeric and boolean options carry exactly one value in GETCONF replies; in CONF_CHANGED they may be announced by the keyword alone (reset to default)',
                    'values contain no CR/LF, are not wrapped in quotes, not the word DEFAULT',
                    'event keys are spelled as Tor spells them (canonical case)',
                    'handler exceptions inside Event.got_update are logged by txtorcon, not observed',
@@ -135,6 +135,8 @@ class P(drive_C10.P):
                 vals = rng.sample(PORT_LINES, rng.choice([0, 1, 1, 2, 3]))
             else:
                 vals = [v for v in self._tor_values(rng, k) if v]
+                if rng.random() < 0.3:
+                    vals = []          # reset to the default: announced by the keyword alone, whatever the type
             if not vals:
                 items.append([cn, None])
             else:
@@ -172,10 +174,14 @@ class P(drive_C10.P):
             r = rng.random()
             if r < 0.34:
                 op = self._event(rng, opts, defaults)
-            elif r < 0.46:
+            elif r < 0.42:
                 cn, k = rng.choice(opts)
                 v = self._value(rng, k)
                 op = ['assign', casevar(rng, cn), v]
+            elif r < 0.46 and lists:
+                op = self._copy(rng, sim, lists)
+                if op is None:
+                    continue
             elif r < 0.62 and lists:
                 cn, k = rng.choice(lists)
                 self._socks_name = (cn == 'SocksPort' and rng.random() < 0.9)
@@ -237,7 +243,7 @@ class P(drive_C10.P):
                     if dmode == 'line':
                         dv = {'KLine': 'dline', 'KComma': 'dx', 'KStr': 'dstr'}.get(k) or self._tor_values(rng, k)[0]
                         defaults.append([name, dv])
-                    evs = [[[name, None]]] if k in ('KStr', 'KLine', 'KComma') else []
+                    evs = [[[name, None]]]
                     evs.append([[name, (self._tor_values(rng, k) or ['v'])[0] or 'v']])
                     if k == 'KLine':
                         evs.append([[name, 'm1'], [name, 'm 2'], [name, 'm3']])
